@@ -49,9 +49,30 @@ Section shared.
     end.
 End shared.
 
+Definition EQ_FUEL_K : nat := 60.
 Definition path_eqb : list pstep -> list pstep -> bool := list_eqb pstep_eqb.
 Definition subset (a b : list (list pstep)) : bool := forallb (fun p => existsb (path_eqb p) b) a.
 Definition paths_eq (a b : list (list pstep)) : bool := subset a b && subset b a.
+
+(* a map built by the conversion in which two entries got the same key (a custom function on the keys that is
+   not injective): Go keeps one of them, which one depends on the iteration order — such results are not compared *)
+Fixpoint dup_keys (fuel : nat) (v : val) : bool :=
+  match fuel with
+  | O => false
+  | S f =>
+    match v with
+    | VPtr _ x => dup_keys f x
+    | VSlice _ vs | VArr vs | VStruct vs => existsb (dup_keys f) vs
+    | VMap _ kvs =>
+      (fix dup (l : list (val * val)) : bool :=
+         match l with
+         | [] => false
+         | kv :: r => existsb (fun kv' => val_eqb EQ_FUEL_K (erase (fst kv)) (erase (fst kv'))) r || dup r
+         end) kvs
+      || existsb (fun kv => dup_keys f (snd kv)) kvs
+    | _ => false
+    end
+  end.
 
 Definition RUN_FUEL : nat := 400.
 Definition EQ_FUEL : nat := 200.
@@ -70,7 +91,7 @@ Definition check_run (e : env) (tab : table) (F : ftable) (r : run_obs) : list N
   | Some old =>
     match run_update e tab F RUN_FUEL (r_method r) (r_ctx r) (r_src r) old (r_n0 r) with
     | Done (v, _) => match r_err r with Some _ => [9] | None =>
-                     match r_out r with Some o => if val_eqb EQ_FUEL (erase v) (erase o) then [] else [2] | None => [3] end end
+                     match r_out r with Some o => if dup_keys EQ_FUEL v || val_eqb EQ_FUEL (erase v) (erase o) then [] else [2] | None => [3] end end
     | Panicked => match r_out r, r_err r with None, None => [] | _, _ => [3] end
     | Errored er => check_err er r
     | _ => [5]
@@ -80,8 +101,8 @@ Definition check_run (e : env) (tab : table) (F : ftable) (r : run_obs) : list N
   | Done (v, _) =>
     match r_err r with Some _ => [9] | None =>
     match r_out r with
-    | Some o => (if val_eqb EQ_FUEL (erase v) (erase o) then [] else [2])
-                ++ (if paths_eq (shared_paths (r_n0 r) EQ_FUEL v []) (r_shared r) then [] else [4])
+    | Some o => (if dup_keys EQ_FUEL v || val_eqb EQ_FUEL (erase v) (erase o) then [] else [2])
+                ++ (if dup_keys EQ_FUEL v || paths_eq (shared_paths (r_n0 r) EQ_FUEL v []) (r_shared r) then [] else [4])
     | None => [3]
     end end
   | Panicked => match r_out r, r_err r with None, None => [] | _, _ => [3] end
